@@ -104,6 +104,11 @@ def execute(case):
         ex.settle(play=True, resumes=[11, 12, 13, 14, 15, 16], open_gates=True, final_play=False)
         w = ex.world
         pid = ex.proc.pid
+        if any(r['who'].startswith('hook:') and r['raised'] and 'already transitioning' in r['raised'] for r in w.futs):
+            # a hook override that requests a transition from inside a transition carried out directly (not by the
+            # stepping task): plumpy refuses that by assertion, like fail() from a hook; the hook raises, which is
+            # C03's subject and outside the quantifier of C02 (hooks do not raise)
+            return {'violations': [], 'nontrivial': False, 'classes': ['hook-reentered-direct-transition'], 'history': ex.history()}
         # (a) the future is never resolved while the process is live
         for i, smp in enumerate(ex.samples):
             if smp[6] and not smp[5]:
@@ -168,7 +173,7 @@ def execute(case):
                 texts = {(r['arg'] or '') for r in w.futs if r['what'] == 'kill'}
                 for step in case['program']['steps']:
                     if step['ret'][0] == 'kill':
-                        texts.add(step['ret'][1] or '')
+                        texts.add('' if step['ret'][1] == '__nomsg__' else (step['ret'][1] or ''))
                 if msg[0] == 'ok' and (text or '') not in texts:
                     v('killed-text', f'killed_msg text {text!r} not among issued {sorted(texts)}')
             # listeners: exactly one terminal notification, of the matching kind
